@@ -294,7 +294,7 @@ pub fn valid_request(rng: &mut Rng, o: &ReqOpts) -> ReqPlan {
 }
 
 /// Names of the single-point corruptions of C02's quantifier.
-pub const CORRUPTIONS: [&str; 23] = [
+pub const CORRUPTIONS: [&str; 24] = [
     "method-wrong",
     "method-empty",
     "method-lower",
@@ -310,6 +310,7 @@ pub const CORRUPTIONS: [&str; 23] = [
     "stray-cr",
     "cr-before-crlf",
     "stray-lf",
+    "stray-crlf",
     "header-no-colon",
     "header-nonutf8",
     "cl-value",
@@ -404,6 +405,14 @@ pub fn corrupt(rng: &mut Rng, plan: &ReqPlan, which: &str) -> Vec<u8> {
             let head = plan.head_len().min(b.len());
             let pos = rng.below(head + 1);
             b.insert(pos, b'\n');
+        }
+        "stray-crlf" => {
+            // a whole line terminator dropped into the head: half of the time into the first bytes of the stream
+            // (inside the method, the target or right after them), where the remainder still looks like a request
+            let head = plan.head_len().min(b.len());
+            let pos = if rng.chance(1, 2) { rng.below(head.min(16) + 1) } else { rng.below(head + 1) };
+            b.insert(pos, b'\n');
+            b.insert(pos, b'\r');
         }
         "bare-lf-terminator" => {
             if line_end < b.len() {
